@@ -4,6 +4,7 @@ package vc
 // havoc of the loop-modified state, termination variants.
 
 import (
+	"go/token"
 	"fmt"
 	"go/types"
 	"sort"
@@ -107,6 +108,7 @@ func (x *Exec) atLoopHeader(st *State, lp *loop, from *ssa.BasicBlock) bool {
 	st.assume(le(st.alloc, w))
 	st.alloc = w
 	mods, all := x.loopMods(st, fr, lp)
+	before := st.H.copy()
 	if all {
 		st.H = Heap{M: map[string]string{}, Epoch: x.P.nextEpoch()}
 	} else {
@@ -117,6 +119,42 @@ func (x *Exec) atLoopHeader(st *State, lp *loop, from *ssa.BasicBlock) bool {
 		}
 		for _, k := range sortedKeys(mods) {
 			x.havocKey(st, k)
+		}
+	}
+	// variables captured by closures live in heap cells; one that is assigned exactly once, in the entry
+	// block of its function (a spilled parameter, a `:=` before the loop), keeps its value through the loop
+	if !all {
+		type cellv struct {
+			al  *ssa.Alloc
+			ref string
+		}
+		var cells []cellv
+		for f := fr; f != nil; f = f.parent {
+			for v, val := range f.vals {
+				al, ok := v.(*ssa.Alloc)
+				if !ok || !x.writeOnce(al) {
+					continue
+				}
+				if tv, ok := val.(TV); ok {
+					cells = append(cells, cellv{al, tv.T})
+				}
+			}
+		}
+		sort.Slice(cells, func(i, j int) bool {
+			if cells[i].al.Pos() != cells[j].al.Pos() {
+				return cells[i].al.Pos() < cells[j].al.Pos()
+			}
+			return cells[i].ref < cells[j].ref
+		})
+		for _, c := range cells {
+			t := deref(c.al.Type())
+			if !isScalar(t) {
+				continue
+			}
+			k := cellKey(t)
+			if mods[k] {
+				st.assume(eq(sel(x.hget(st.H, k), c.ref), sel(x.hget(before, k), c.ref)))
+			}
 		}
 	}
 	for _, b := range sortedBlocks(lp.blocks) {
@@ -312,10 +350,62 @@ func (x *Exec) callMods(st *State, fr *Frame, c *ssa.CallCommon, out map[string]
 			}
 		}
 	}
+	// function-typed arguments: what the callee does through them is what the argument closures do
+	argMods := func() bool {
+		all := false
+		for _, a := range c.Args {
+			if _, isSig := under(a.Type()).(*types.Signature); !isSig {
+				continue
+			}
+			var af *ssa.Function
+			switch a := a.(type) {
+			case *ssa.MakeClosure:
+				af, _ = a.Fn.(*ssa.Function)
+			case *ssa.Function:
+				af = a
+			}
+			if af == nil {
+				all = true
+				continue
+			}
+			m, al := x.fnMods(af)
+			for k := range m {
+				out[k] = true
+			}
+			if al {
+				all = true
+			}
+		}
+		return all
+	}
 	if fn == nil {
+		switch v := c.Value.(type) {
+		case *ssa.Call:
+			// the value called is the result of a function of this module that returns closures of its own
+			// (range-over-func iterators): its body and closures, plus the closures handed to it
+			if f := v.Call.StaticCallee(); f != nil && f.Blocks != nil && x.P.inModule(f) && x.P.funcSpec(f) == nil {
+				m, all := x.fnMods(f)
+				for k := range m {
+					out[k] = true
+				}
+				if argMods() {
+					all = true
+				}
+				return all
+			}
+		case *ssa.Parameter:
+			if fr == nil {
+				// static summary of a function calling its function-typed parameter: accounted for at the
+				// call site that passes the closure (argMods)
+				return false
+			}
+		}
 		return true
 	}
 	_ = bound
+	if argMods() {
+		return true
+	}
 	if fn.String() == "fmt.Errorf" {
 		return false
 	}
@@ -381,4 +471,53 @@ func (x *Exec) fnMods(fn *ssa.Function) (map[string]bool, bool) {
 	x.modMemo[fn] = out
 	fnModAll[fn] = all
 	return out, all
+}
+
+// writeOnce: the variable is assigned exactly once, in the entry block of its function, and otherwise only
+// read -- directly or through closures that capture it.
+func (x *Exec) writeOnce(al *ssa.Alloc) bool {
+	if v, ok := x.onceMemo[al]; ok {
+		return v
+	}
+	stores := 0
+	var ok func(v ssa.Value, top bool) bool
+	ok = func(v ssa.Value, top bool) bool {
+		refs := v.Referrers()
+		if refs == nil {
+			return false
+		}
+		for _, r := range *refs {
+			switch r := r.(type) {
+			case *ssa.DebugRef:
+			case *ssa.UnOp:
+				if r.Op != token.MUL {
+					return false
+				}
+			case *ssa.Store:
+				if r.Val == v || !top || r.Block().Index != 0 {
+					return false
+				}
+				stores++
+			case *ssa.MakeClosure:
+				fn, isFn := r.Fn.(*ssa.Function)
+				if !isFn {
+					return false
+				}
+				for i, b := range r.Bindings {
+					if b == v && !ok(fn.FreeVars[i], false) {
+						return false
+					}
+				}
+			default:
+				return false
+			}
+		}
+		return true
+	}
+	res := ok(al, true) && stores == 1
+	if x.onceMemo == nil {
+		x.onceMemo = map[*ssa.Alloc]bool{}
+	}
+	x.onceMemo[al] = res
+	return res
 }
